@@ -24,7 +24,7 @@ def respStr (l : List Status) : String :=
 
 def infoStr (i : ClusterInfo) : String :=
   let fr (l : List Front) := showPairs ":" (l.map fun f => (f.addr, f.key))
-  s!" info=known:{boolStr i.known} http:{fr i.http} https:{fr i.https} tcp:{showNats i.tcp} udp:{showNats i.udp} be:{showPairs "@" i.backends}"
+  s!" info=known:{boolStr i.known} knobs:{i.knobs} http:{fr i.http} https:{fr i.https} tcp:{showNats i.tcp} udp:{showNats i.udp} be:{showPairs "@" i.backends}"
 
 def outStr (o : Out) : String :=
   respStr o.resp ++ " acc=" ++ boolStr o.accepted ++ (match o.info with | some i => infoStr i | none => "")
@@ -62,10 +62,10 @@ def parseOp (ws : List String) : Option Op :=
     match parseKind k, parseBool ok with
     | some k, some ok => if plainAllowed k then some (.plain k ok) else none
     | _, _ => none
-  | ["addcluster", c, hc, tpl] =>
-    match c.toNat?, parseBool hc, parseBool tpl with
-    | some c, some hc, some tpl => some (.addCluster c hc tpl)
-    | _, _, _ => none
+  | ["addcluster", c, hc, tpl, knobs] =>
+    match c.toNat?, parseBool hc, parseBool tpl, knobs.toNat? with
+    | some c, some hc, some tpl, some knobs => some (.addCluster c hc tpl knobs)
+    | _, _, _, _ => none
   | ["rmcluster", c] => c.toNat?.map Op.removeCluster
   | ["addbackend", c, b, a] =>
     match c.toNat?, b.toNat?, a.toNat? with
